@@ -64,6 +64,20 @@ SET_ON = {b'1': 1, b'yes': 1, b'true': 1, b'0': 0, b'no': 0, b'false': 0}
 EXEC_ON = {b'turn_on': 1, b'turn_off': 0, b'toggle': 255}
 EXEC_RS = {b'shut': 4, b'reveal': 6, b'stop': 7, b'recalibrate': 8, b'calibrate': 8}
 
+def _long_channels():
+    out = []
+    for k in (1, 2, 3):
+        for n in (0, 1, 2, 255, 256): out.append(k * 2**32 + n)
+    for base in (2**31, 2**32, 2**63, 2**64, 2**16, 2**8):
+        for d in (-2, -1, 0, 1, 2, 255, 256): out.append(base + d)
+    for k in (1, 5, 7): out += [k * 2**64 + n for n in (0, 1, 255, 256)]
+    out += [10**9, 10**10, 10**19, 10**20 + 7, 10**39 + 255, 12345678901234567890123456789012345678]
+    res = [str(x).encode() for x in out if x >= 0]
+    res += [b'0' * z + m for z in (1, 3, 9, 10, 20, 38) for m in (b'1', b'0', b'255', b'256', b'7')]
+    res += [b'0256', b'00255', b'0' * 30]
+    return res
+LONG_CHANNELS = _long_channels()
+
 def ref_head(prefix, topic):
     """channel number and command per the property's grammar, or None"""
     if not prefix or not topic.startswith(prefix + b'/channels/'): return None
@@ -95,7 +109,7 @@ class C17(F.PropCheck):
                    'number rendering: precision <= 20 (call sites use 1, 2, 3, 5)']
     rule = ('CONNECT: user-name lengths 0..254 x password lengths 0..maximum storable+ (split across Password field and the tail behind the user name, '
             'stale bytes after terminators) x auth on/off x TLS x prefix lengths 0..49; parser: topics around <prefix>/channels/<N>/<command> '
-            '(N 0..99999, signs, dots, leading zeros, empty, wrong/missing separator after the prefix, missing/extra segments, prefix variants) x '
+            '(N 0..99999 and 10-40 digit numbers (k*2^32+n, around 2^31/2^32/2^63/2^64, long leading zeros), signs, dots, empty, wrong/missing separator after the prefix, missing/extra segments, prefix variants) x '
             'payload variants (case, truncation, numbers with sign/fraction); rendering: 64-bit values (boundaries, powers of ten, random) x precision 0..20 x signedness; '
             'distinct by sha256 of the event text')
 
@@ -130,6 +144,7 @@ class C17(F.PropCheck):
             rs = rng.random() < 0.45
             n = rng.choice([b'0', b'1', b'2', b'7', b'9', b'10', b'99', b'127', b'128', b'200', b'255', b'256', b'257', b'300', b'511', b'512', b'999', b'1000', b'65535', b'65536', b'99999',
                             b'-1', b'-0', b'-', b'-255', b'+1', b'1.5', b'1.', b'.5', b'-.5', b'007', b'0255', b'00256', b'', b' 1', b'1 ', b'0x10', b'1e2', b'12a', str(rng.randrange(0, 100000)).encode()])
+            if rng.random() < 0.3: n = rng.choice(LONG_CHANNELS) if rng.random() < 0.8 else str(rng.randrange(10**19, 10**rng.randrange(20, 41))).encode()
             cmds = [b'set/on', b'execute_action', b'set/closing_percentage', b'set/tilt']
             cmd = rng.choice(cmds)
             if cmd == b'set/on': pay = rng.choice(list(SET_ON) + [b'YES', b'True', b'fAlSe', b'No', b'2', b'on', b'tru', b'truee', b'', b'1 ', b'ye', b'yess'])
@@ -180,6 +195,12 @@ class C17(F.PropCheck):
             for ch in range(base, base + 50):
                 t = pfx + b'/channels/' + str(ch).encode() + b'/set/on'; evs.append(('SETON', [len(t)], t + b'1'))
             cases.append(F.Case('ch%d' % base, evs, ['exhaustive-channel']))
+        for i in range(0, len(LONG_CHANNELS), 25):
+            evs = [('SETPFX', [], pfx)]
+            for nn in LONG_CHANNELS[i:i + 25]:
+                t = pfx + b'/channels/' + nn + b'/set/on'; evs.append(('SETON', [len(t)], t + b'1'))
+                t = pfx + b'/channels/' + nn + b'/execute_action'; evs.append(('RSFB', [len(t)], t + b'stop'))
+            cases.append(F.Case('longch%d' % i, evs, ['exhaustive-long-channel']))
         for prec in range(0, 7):
             evs = [('VAL', [u, prec, 0, v], b'') for v in range(0, 1300, 7) for u in (0, 1)]
             evs += [('VAL', [0, prec, 0xFFFFFFFF, (2**32 - v) & 0xFFFFFFFF], b'') for v in range(1, 1300, 13)]
